@@ -1,4 +1,11 @@
-/* U-cmpfac: the comparison factories instantiate the kernel that matches the operand types (C05) */
+/* U-cmpfac: the comparison and arithmetic factories instantiate the kernel that matches the operand types (C05) */
+/* each job defines the operation of the factory it enforces; the other contracts are only declared */
+#ifndef FAC_AOP
+#define FAC_AOP 0
+#endif
+#ifndef FAC_CMP
+#define FAC_CMP 0
+#endif
 enum { CMPOP_eq = 1, CMPOP_ne, CMPOP_gt, CMPOP_ge, CMPOP_lt, CMPOP_le };
 enum { TY_int = 1, TY_long, TY_float, TY_double };
 enum { EOP_plus = 1, EOP_times };
@@ -38,3 +45,39 @@ FACTORY_CONTRACT(GT_factory__build_new)
 FACTORY_CONTRACT(GE_factory__build_new)
 FACTORY_CONTRACT(LT_factory__build_new)
 FACTORY_CONTRACT(LE_factory__build_new)
+
+/* ---- arithmetic factories (arith_*.cc) ---- */
+enum { TY_ = 0 };     /* EdgeOp_none carries no type */
+enum { TPL_compat = 1, TPL_factor, TPL_pushdn };
+enum { EOP_none = 3 };
+enum { ALAB_mt = 1, ALAB_evplus, ALAB_evstar };
+enum { AOP_plus = 1, AOP_minus, AOP_mult, AOP_div, AOP_mod, AOP_max, AOP_min, AOP_distmin };
+int g_tpl, g_alab, g_aop;
+struct binary_operation *verif_new_arith(int tpl, int eop, int t1, int alab, int aop, int t2, struct forest *a, struct forest *b, struct forest *c)
+__CPROVER_requires(a != NULL && b != NULL && c != NULL)
+__CPROVER_assigns(g_built, g_tpl, g_eop, g_ty1, g_alab, g_aop, g_ty2)
+__CPROVER_ensures(g_built == __CPROVER_old(g_built) + 1 && g_tpl == tpl && g_eop == eop && g_ty1 == t1 && g_alab == alab && g_aop == aop && g_ty2 == t2 && __CPROVER_return_value == g_new_op);
+#define CEDGE_TY(f) EDGE_TY(f)
+#define AFACTORY_CONTRACT(name) \
+struct binary_operation *name(struct forest *a, struct forest *b, struct forest *c) \
+__CPROVER_requires(__CPROVER_is_fresh(a, sizeof(*a)) && __CPROVER_is_fresh(b, sizeof(*b)) && __CPROVER_is_fresh(c, sizeof(*c)) && verif_exc == 0 && g_built < 1000000 && g_new_op != NULL) \
+__CPROVER_assigns(g_built, g_tpl, g_eop, g_ty1, g_alab, g_aop, g_ty2) \
+ENSURES(at_most_one_instance_is_built, g_built <= __CPROVER_old(g_built) + 1 && (__CPROVER_return_value != NULL) == (g_built == __CPROVER_old(g_built) + 1)) \
+ENSURES(the_instance_is_this_factorys_operation, __CPROVER_return_value == NULL || g_aop == FAC_AOP) \
+ENSURES(the_kernel_family_matches_the_result_labelling, __CPROVER_return_value == NULL || \
+        (g_alab == (c->edgeLabel == edge_labeling__MULTI_TERMINAL ? ALAB_mt : c->edgeLabel == edge_labeling__EVPLUS ? ALAB_evplus : ALAB_evstar) && \
+         g_eop == (c->edgeLabel == edge_labeling__MULTI_TERMINAL ? EOP_none : c->edgeLabel == edge_labeling__EVPLUS ? EOP_plus : EOP_times) && \
+         (c->edgeLabel == edge_labeling__MULTI_TERMINAL || c->edgeLabel == edge_labeling__EVPLUS || c->edgeLabel == edge_labeling__EVTIMES))) \
+ENSURES(real_valued_operands_get_the_real_valued_kernel, !(__CPROVER_return_value != NULL && c->edgeLabel == edge_labeling__MULTI_TERMINAL) || \
+        (g_ty1 == TY_ && g_ty2 == ((a->rangeType == range_type__REAL || b->rangeType == range_type__REAL) ? TY_float : TY_long))) \
+ENSURES(edge_valued_kernels_use_the_result_forests_edge_type, !(__CPROVER_return_value != NULL && c->edgeLabel != edge_labeling__MULTI_TERMINAL) || (g_ty1 == CEDGE_TY(c) && g_ty2 == CEDGE_TY(c) && \
+        (c->edgeLabel == edge_labeling__EVPLUS ? (c->the_edge_type == edge_type__INT || c->the_edge_type == edge_type__LONG) : (c->the_edge_type == edge_type__FLOAT || c->the_edge_type == edge_type__DOUBLE)))) \
+;
+AFACTORY_CONTRACT(PLUS_factory__build_new)
+AFACTORY_CONTRACT(MINUS_factory__build_new)
+AFACTORY_CONTRACT(MULT_factory__build_new)
+AFACTORY_CONTRACT(DIV_factory__build_new)
+AFACTORY_CONTRACT(MOD_factory__build_new)
+AFACTORY_CONTRACT(MAXIMUM_factory__build_new)
+AFACTORY_CONTRACT(MINIMUM_factory__build_new)
+AFACTORY_CONTRACT(DISTMIN_factory__build_new)
